@@ -70,7 +70,7 @@ def expected_tree(root_cls_name: str, config: dict) -> tuple[list, dict]:
     def hard(cls: type, kw: dict) -> dict:
         h: dict = {}
         if issubclass(cls, vc.A):
-            h["g"] = {"type": vc.G, "y": 1}
+            h["g"] = {"type": vc.G, "y": 1, "opt": None}
         if issubclass(cls, vc.K):
             h["w"] = {"type": vc.W, "tag": kw.get("tag", "")}
         if issubclass(cls, vc.Root):
@@ -184,7 +184,7 @@ class C14:
     def units(self, tier: str, seed: int) -> list:
         cs = configs(tier)
         step = max(1, len(cs) // 48)
-        return [{"lo": i, "hi": min(len(cs), i + step)} for i in range(0, len(cs), step)] + [{"rebind": how} for how in ("root", "child", "config", "alias-ref", "alias-ref-config", "mapping-wrapper", "mapping-chain")]
+        return [{"lo": i, "hi": min(len(cs), i + step)} for i in range(0, len(cs), step)] + [{"rebind": how} for how in ("root", "child", "config", "alias-ref", "alias-ref-config", "mapping-wrapper", "mapping-chain", "unicode-name")]
 
     def rebind_unit(self, unit: dict) -> dict:
         """A `module:attr` reference names what the module attribute IS when the tree is started: after the attribute has been bound
@@ -248,7 +248,26 @@ class C14:
             if dict(cfg) != dict(make()):
                 fails.append(("config-modified", f"the {type(cfg).__name__} passed to start_component changed to {dict(cfg)!r}"))
 
+        async def unicode_name() -> None:
+            """the name part of a kind/name alias may be any word (\\w+), not only ASCII: default-named resources of start() go there"""
+            from asphalt.core import Context, start_component
+
+            from vkplugins import comps
+
+            for suffix in ("données", "архив_3", "ストア2"):
+                comps.REC.clear()
+                try:
+                    async with Context() as ctx:
+                        await start_component(comps.Root, {"components": {f"ep_c/{suffix}": {"tag": "u"}}}, timeout=None)
+                        names = sorted(ctx.get_resources(comps.rtype("C", "s")))
+                        if suffix not in names:
+                            fails.append(("resource-names", f"component 'ep_c/{suffix}': its default-named start() resource is registered under {names}"))
+                except BaseException as e:  # noqa: BLE001
+                    fails.append(("start-failed", f"a component with the alias 'ep_c/{suffix}' could not be started: {e!r} / {getattr(e, '__cause__', None)!r}"))
+
         async def main() -> None:
+            if unit["rebind"] == "unicode-name":
+                return await unicode_name()
             if unit["rebind"].startswith("alias-ref"):
                 return await alias_ref()
             if unit["rebind"].startswith("mapping"):
